@@ -26,6 +26,7 @@ META = {
     'technique': 'static analysis: multiplicity dataflow, loop classification over feasible paths, linear lower bounds, small-sc'
                  'ope interpretation of normalisation cost and of cyclic values',
 }
+META['text'] += ' Round 5: (b) every interpreted layout terminates, including fills of T+2 words where the indentation has reached the page width and documents scaled past every size constant of the layout engine; the splitter terminates on texts scaled past its size constants.'
 
 INFINITE = {'cycle', 'count', 'repeat', 'itertools.cycle', 'itertools.count', 'itertools.repeat'}
 
